@@ -674,6 +674,11 @@ func (ex *Exec) formatInt(t *Term, signed bool, base int) Val {
 		}
 		return ex.mkStr(t.C.Text(base))
 	}
+	if base == 10 {
+		// decimal rendering of a symbolic integer is only used for messages/events in the code under
+		// test; inspecting the result is reported as unmodelled
+		return StrV{Opaque: true, Tag: "decimal-int"}
+	}
 	if signed {
 		if ex.Branch(tf.BVSlt(t, tf.BVu(0, w))) {
 			ex.unmodelled("format of negative symbolic integer")
